@@ -200,13 +200,26 @@ func (s *spanScreen) StyledLine(x, w, y int) Line {
 			if offset == 0 && width == sp.Width {
 				spans = append(spans, sp)
 			} else {
-				// We need a sub-span
-				_, sub, _ := splitSpan(sp, offset, s.textMode) // skip left part
+				// We need a sub-span. A wide character cut by an edge of the
+				// requested range cannot be shown in part: its cells inside
+				// the range are reported as blanks, so that the line always
+				// covers exactly the requested cells.
+				left, sub, cutL := splitSpan(sp, offset, s.textMode) // skip left part
+				if cutL.Width > 0 {
+					pad := min(left.Width+cutL.Width-offset, width)
+					spans = append(spans, Span{Style: sp.Style, Rune: ' ', Width: pad})
+					width -= pad
+				}
 				// now sub is from offset to end. we might need to truncate it if it's too long
 				if sub.Width > width {
-					keep, _, _ := splitSpan(sub, width, s.textMode)
-					spans = append(spans, keep)
-				} else {
+					keep, _, cutR := splitSpan(sub, width, s.textMode)
+					if keep.Width > 0 {
+						spans = append(spans, keep)
+					}
+					if cutR.Width > 0 && width > keep.Width {
+						spans = append(spans, Span{Style: sp.Style, Rune: ' ', Width: width - keep.Width})
+					}
+				} else if sub.Width > 0 {
 					spans = append(spans, sub)
 				}
 			}
